@@ -65,6 +65,8 @@ class RoundTrip:
             return [("WORD", w) for w in words]
         if len(p) == 1 and is_num_atom(p[0]):
             return [(num_kind(p[0]), SStr([p[0]]))]
+        if len(p) == 1 and isinstance(p[0], Atom) and p[0].name == "enumword":
+            return [("UNQUOTED_STRING", tmpl)]  # an enumerated word written bare in some letter case
         if isinstance(p[0], str) and p[0] == "[" and len(p) == 3 and p[2] == "]":
             return [("LSQB", "["), ("UNQUOTED_STRING", SStr([p[1]])), ("RSQB", "]")]
         if isinstance(p[0], str) and p[0].startswith("/") and isinstance(p[-1], str) and p[-1].endswith("/"):
